@@ -170,7 +170,7 @@ fn hostile_op() -> impl Strategy<Value = HOp> {
         5 => (idsel(&[0, 0, 0, 1, 4]), any::<bool>(), proptest::collection::vec(hdatagram(), 0..5)).prop_map(|(frame, nonce, dgs)| HOp::Data { frame, nonce, dgs }),
         5 => (idsel(&[2, 2, 3, 3, 4]), idsel(&[2, 2, 3, 3, 4]), proptest::collection::vec(hgroup(), 0..4)).prop_map(|(fbase, pbase, groups)| HOp::Ack { fbase, pbase, groups }),
         3 => (proptest::option::of(idsel(&[0, 0, 1, 4])), proptest::option::of(idsel(&[0, 0, 1, 4]))).prop_map(|(frame, packet)| HOp::Sync { frame, packet }),
-        1 => (proptest::collection::vec(any::<u8>(), 0..80), any::<bool>()).prop_map(|(bytes, fix_crc)| HOp::Raw { bytes, fix_crc }),
+        1 => (raw_bytes(80), any::<bool>()).prop_map(|(bytes, fix_crc)| HOp::Raw { bytes, fix_crc }),
         3 => (0u8..4, proptest::collection::vec(mutation(), 1..4), prop_oneof![4 => Just(true), 1 => Just(false)]).prop_map(|(back, muts, fix_crc)| HOp::MutateGenuine { back, muts, fix_crc }),
         1 => any::<u16>().prop_map(|back| HOp::ReplayGenuine { back }),
     ]
@@ -185,7 +185,7 @@ fn bframe() -> impl Strategy<Value = BFrame> {
         5 => (idsel(&[0, 0, 0, 1, 4]), any::<bool>(), proptest::collection::vec(hdatagram(), 0..4)).prop_map(|(frame, nonce, dgs)| BFrame::Data { frame, nonce, dgs }),
         5 => (idsel(&[2, 2, 3, 3, 4]), idsel(&[2, 2, 3, 3, 4]), proptest::collection::vec(hgroup(), 0..3)).prop_map(|(fbase, pbase, groups)| BFrame::Ack { fbase, pbase, groups }),
         3 => (proptest::option::of(idsel(&[0, 0, 1, 4])), proptest::option::of(idsel(&[0, 0, 1, 4]))).prop_map(|(frame, packet)| BFrame::Sync { frame, packet }),
-        2 => (proptest::collection::vec(any::<u8>(), 0..60), any::<bool>()).prop_map(|(bytes, fix_crc)| BFrame::Raw { bytes, fix_crc }),
+        2 => (raw_bytes(60), any::<bool>()).prop_map(|(bytes, fix_crc)| BFrame::Raw { bytes, fix_crc }),
         1 => Just(BFrame::Disconnect),
         1 => Just(BFrame::DisconnectAck),
         1 => (idsel(&[2, 4]), 0u8..3).prop_map(|(nonce, code)| BFrame::HandshakeError { nonce, code }),
@@ -239,6 +239,15 @@ fn world_case(tier: Tier) -> BoxedStrategy<WorldCase> {
             wc
         })
         .boxed()
+}
+
+/// arbitrary bytes, or a short run of one byte value (0x00 and 0xff pass trivially through length / checksum arithmetic)
+fn raw_bytes(max: usize) -> BoxedStrategy<Vec<u8>> {
+    prop_oneof![
+        3 => proptest::collection::vec(any::<u8>(), 0..max),
+        1 => (0usize..12, prop_oneof![Just(0u8), Just(0xffu8), any::<u8>()]).prop_map(|(n, b)| vec![b; n]),
+    ]
+    .boxed()
 }
 
 pub struct C03;
@@ -393,6 +402,32 @@ impl Check for C03 {
     }
 
     fn run(&self, case: &Case) -> CaseResult {
+        // a block released twice makes the system allocator abort (or corrupts its heap): a crash like any other
+        let _ = (crate::alloc::take_double_frees(), crate::alloc::take_invalid_frees());
+        let r = {
+            // freed blocks are held back until the case is over, so that a stale pointer is recognised instead of
+            // hitting whatever was allocated there next
+            struct Scope;
+            impl Drop for Scope {
+                fn drop(&mut self) {
+                    crate::alloc::quarantine_end();
+                }
+            }
+            crate::alloc::quarantine_begin();
+            let _scope = Scope;
+            self.run_inner(case)
+        };
+        let (df, size) = crate::alloc::take_double_frees();
+        let inv = crate::alloc::take_invalid_frees();
+        if r.violation.is_none() && (df > 0 || inv > 0) {
+            return CaseResult::fail("heap:double_or_invalid_free", format!("{df} heap block(s) released twice (first: {size} bytes), {inv} release(s) of pointers that are not live blocks - with the system allocator this aborts the process"));
+        }
+        r
+    }
+}
+
+impl C03 {
+    fn run_inner(&self, case: &Case) -> CaseResult {
         if let Some(w) = &case.world {
             return run_world(w);
         }
